@@ -6,6 +6,7 @@ KANI_FILES = {
     "random": ["random.rs"],
     "tensor": ["libm.rs"],
     "activation": ["activation.rs"],
+    "objective": ["objective.rs"],
 }
 
 PLAN = {
@@ -17,6 +18,14 @@ PLAN = {
         undecided_clauses=[
             "parameters never become NaN/inf for moderate magnitudes (needs IEEE value reasoning through powi/powf/sqrt/div; "
             "one Adam element over the full float domain did not finish in CBMC; Verus has no float theory)"],
+    ),
+    "C06": dict(
+        title="Objective functions return the documented loss and gradient",
+        level="proof",
+        verus=["C06_objectives.rs"],
+        kani=True,
+        undecided_clauses=["loss folds over more than 3 elements (bounded structural harness); AE/MSE finiteness is stated for |a|,|p| <= 1e18 "
+                           "(larger finite inputs overflow the exact result)"],
     ),
     "C07": dict(
         title="Activations: defined function, exact derivative, total on finite floats",
@@ -58,6 +67,17 @@ MANIFEST_TEXT = {
         note="Float operators are uninterpreted (F1): totality, commutativity of + and *, x^2 == powf(x,2) == powi(x,2) assumed; "
              "the iterator chain `(0..n).for_each` around the closure body and the slot addressing are covered by Kani harnesses (bounded) "
              "or trusted; NaN-freedom clause undecided.",
+    ),
+    "C06": dict(
+        category="proof",
+        technique="Verus formula contracts on the 21 loss/gradient closure bodies + Kani harnesses over the full in-domain f32 range for finiteness and clamping",
+        design_ref="DESIGN.md §5 C06",
+        text="Verus proves for every element of every shape that the loss term and both rank copies of the gradient closure of all seven "
+             "objectives compute the documented formula (gradient = textbook derivative for AE, MSE, BCE, KL). Kani decides, through the real "
+             "Function::loss on singleton tensors of both ranks and for every in-domain f32 incl. exactly 0 and 1, that the loss is finite, the "
+             "gradient has the prediction's shape and the clamped gradient is the unclamped one limited to the interval (complete over the "
+             "element domain, ln by contract). The fold over elements (sum, /n, sqrt, negation; flat == 3-D) is a bounded harness.",
+        note="F1 uninterpreted floats in Verus; F2 ln contract in Kani; derivative table is mathematics (F3); fold structure bounded to 3 elements.",
     ),
     "C07": dict(
         category="proof",
